@@ -404,7 +404,7 @@ def generate_and_run(a: AdaptSys, rng: np.random.Generator, stats: Stats) -> Tup
             if deep and rng.random() < 0.9:
                 try:
                     m = a.adapter.env_mask(run.obs_np) if a.adapter.mask_mode else None
-                    act = a.adapter.policy_complete(util.to_np(run.state), a.base, rng, m if (m is None or m.any()) else None)
+                    act = a.adapter.safe_policy("complete", util.to_np(run.state), a.base, rng, m if (m is None or m.any()) else None)
                 except Exception:  # noqa: BLE001  (a policy that cannot cope with this state: fall back)
                     act = None
             if act is not None:
